@@ -1145,17 +1145,23 @@ func checkC10(w *World, r *Report) {
 					}
 				}
 			}
-			n, tests := 0, 0
-			bad := ""
+			n, tests, nLin := 0, 0, 0
+			bad, badLin := "", ""
 			dom := ISet{{-1, fullISet[0].hi}}
 			for _, g := range cone {
 				for _, b := range g.Blocks {
 					for _, in := range b.Instrs {
 						c, ok := in.(*ssa.Call)
-						if !ok || c.Call.StaticCallee() == nil || c.Call.StaticCallee().String() != "strings.LastIndex" {
+						if !ok || c.Call.StaticCallee() == nil || !strings.HasPrefix(c.Call.StaticCallee().String(), "strings.LastIndex") {
 							continue
 						}
 						n++
+						if v, decided := c10ColumnIsOffsetInLine(w, g, c, g != root); decided {
+							nLin++
+							if v != "" {
+								badLin = v
+							}
+						}
 						for _, ref := range *c.Referrers() {
 							bo, ok := ref.(*ssa.BinOp)
 							if !ok {
@@ -1196,6 +1202,11 @@ func checkC10(w *World, r *Report) {
 						}
 					}
 				}
+			}
+			if n > 0 && nLin == n {
+				// decided as a whole: the column is pos − (index of the last line break + 1) for every index from −1 up
+				r.Check(badLin == "", "R10.5", "Tree."+m+" not-found test", root.Pos(), "column = pos − (LastIndex + 1) for every index ≥ −1", "the column printed is not the offset within the line: "+badLin)
+				continue
 			}
 			if n == 0 || tests == 0 {
 				r.Fail("R10.5", "Tree."+m, root.Pos(), "no LastIndex-based column computation found")
@@ -1490,4 +1501,166 @@ func c08ClosingQuoteLast(w *World, r *Report, rule string) {
 		}
 	}
 	r.Check(sites >= 1, rule, "call sites of trimWhitespace", w.Func("parse", "trimWhitespace").Pos(), ">= 1", "no call site found")
+}
+
+// c10ColumnIsOffsetInLine: in g, r = strings.LastIndex*(s[:pos], "\n").  Every
+// integer that depends on r and is handed on (boxed for a format call, or
+// returned when g is a helper) is evaluated as a linear form a·r + b·pos + c
+// per range of r (ranges come from the tests on r along the way); for every
+// r ≥ −1 the form must equal pos − r − 1.  decided=false when the computation
+// has another shape (a loop, a value the evaluator does not know).
+func c10ColumnIsOffsetInLine(w *World, g *ssa.Function, r *ssa.Call, helper bool) (bad string, decided bool) {
+	if len(ssaLoops(g)) > 0 || len(r.Call.Args) < 1 {
+		return "", false
+	}
+	sl, ok := r.Call.Args[0].(*ssa.Slice)
+	if !ok || sl.Low != nil || sl.High == nil {
+		return "", false
+	}
+	sym := NewSym(w)
+	sym.Expand = false
+	posKey := sym.Key(stripConv(sl.High), nil)
+	subj := sym.Key(r, nil)
+	type lin struct{ a, b, c int64 }
+	type piece struct {
+		set ISet
+		f   lin
+	}
+	var eval func(v ssa.Value, rset ISet, d int) ([]piece, bool)
+	eval = func(v ssa.Value, rset ISet, d int) ([]piece, bool) {
+		if d > 12 {
+			return nil, false
+		}
+		v = stripConv(unspill(v))
+		if v == ssa.Value(r) {
+			return []piece{{rset, lin{1, 0, 0}}}, true
+		}
+		if k, isK := intConstOf(v); isK {
+			return []piece{{rset, lin{0, 0, k}}}, true
+		}
+		if sym.Key(v, nil) == posKey {
+			return []piece{{rset, lin{0, 1, 0}}}, true
+		}
+		switch x := v.(type) {
+		case *ssa.BinOp:
+			if x.Op != token.ADD && x.Op != token.SUB {
+				return nil, false
+			}
+			xs, ok1 := eval(x.X, rset, d+1)
+			if !ok1 {
+				return nil, false
+			}
+			var out []piece
+			for _, px := range xs {
+				ys, ok2 := eval(x.Y, px.set, d+1)
+				if !ok2 {
+					return nil, false
+				}
+				for _, py := range ys {
+					f := lin{px.f.a + py.f.a, px.f.b + py.f.b, px.f.c + py.f.c}
+					if x.Op == token.SUB {
+						f = lin{px.f.a - py.f.a, px.f.b - py.f.b, px.f.c - py.f.c}
+					}
+					out = append(out, piece{py.set, f})
+				}
+			}
+			return out, true
+		case *ssa.Phi:
+			var out []piece
+			for i, e := range x.Edges {
+				pred := x.Block().Preds[i]
+				cond := pcAndF(sym.PathCond(g.Blocks[0], pred, nil), sym.edgeCond(pred, x.Block(), nil))
+				sub := rset
+				if vals, okv := pcValuesWhen(cond, subj); okv {
+					sub = rset.intersect(vals)
+				}
+				if len(sub) == 0 {
+					continue
+				}
+				ps, oke := eval(e, sub, d+1)
+				if !oke {
+					return nil, false
+				}
+				out = append(out, ps...)
+			}
+			return out, true
+		}
+		return nil, false
+	}
+	dependsOn := func(v ssa.Value) bool {
+		seen := map[ssa.Value]bool{}
+		var dep func(v ssa.Value) bool
+		dep = func(v ssa.Value) bool {
+			v = stripConv(unspill(v))
+			if v == ssa.Value(r) {
+				return true
+			}
+			if seen[v] {
+				return false
+			}
+			seen[v] = true
+			switch x := v.(type) {
+			case *ssa.BinOp:
+				return dep(x.X) || dep(x.Y)
+			case *ssa.Phi:
+				for _, e := range x.Edges {
+					if dep(e) {
+						return true
+					}
+				}
+			}
+			return false
+		}
+		return dep(v)
+	}
+	var targets []ssa.Value
+	for _, b := range g.Blocks {
+		for _, in := range b.Instrs {
+			switch x := in.(type) {
+			case *ssa.MakeInterface:
+				if isIntegerType(x.X.Type()) && dependsOn(x.X) {
+					targets = append(targets, x.X)
+				}
+			case *ssa.Return:
+				if helper {
+					for _, rv := range x.Results {
+						if isIntegerType(rv.Type()) && dependsOn(rv) {
+							targets = append(targets, rv)
+						}
+					}
+				}
+			}
+		}
+	}
+	if len(targets) == 0 {
+		return "", false
+	}
+	dom := ISet{{-1, fullISet[0].hi}}
+	for _, t := range targets {
+		ps, okT := eval(t, dom, 0)
+		if !okT {
+			return "", false
+		}
+		var covered ISet
+		for _, pc := range ps {
+			set := pc.set.intersect(dom)
+			if len(set) == 0 {
+				continue
+			}
+			covered = covered.union(set)
+			f := pc.f
+			good := f.a == -1 && f.b == 1 && f.c == -1
+			if len(set) == 1 && set[0].lo == set[0].hi {
+				k := set[0].lo
+				good = f.b == 1 && f.a*k+f.c == -k-1
+			}
+			if !good {
+				bad = fmt.Sprintf("for a last line break at index %s it is %d·index + %d·pos + %d (%s)", set, f.a, f.b, f.c, w.PosStr(r.Pos()))
+			}
+		}
+		if !covered.equal(dom) {
+			bad = fmt.Sprintf("the indices %s are not covered (%s)", dom.minus(covered), w.PosStr(r.Pos()))
+		}
+	}
+	return bad, true
 }
